@@ -20,4 +20,4 @@ Extraction "model_c16.ml" keepN keepZ keepNat
   ws_run ser_wset ws_fields judge_fields int_datum known_datum_twice
   ma_run ma_wire_case ma_of_json ser_multiasset judge_ma wire_ops
   mb_run mb_build ser_mint mint_case judge_mint
-  tx_build judge_tx d_emit.
+  tx_build judge_tx d_emit input_script_order.
